@@ -141,6 +141,7 @@ func NewResource() *Resource {
 
 // Invalidate permanently invalidates r
 func (r *Resource) Invalidate() {
+	verifEv("inv.spawn", &r.node, nil)
 	go r.invalidate()
 }
 
